@@ -265,7 +265,7 @@ def _conc(v, lo, hi):
 def body_static_from_go(env, a, kind):
     sf = env.sf
     from vf import rt
-    a, kind = _conc(a, 9, 21), _conc(kind, 0, 4)
+    a, kind = _conc(a, 9, 21), _conc(kind, 0, 9)
 
     def probe(ix):
         try:
@@ -289,9 +289,25 @@ def body_static_from_go(env, a, kind):
         elif kind == 3:
             holder = sf.Series(env.array([1, 2], 'int64'), index=go)
             static = holder.index
-        else:
+        elif kind == 4:
             holder = fgo.iloc[0]          # a row Series: its index is the (static) image of the grow-only columns
             static = holder.index
+        elif kind == 5:
+            holder = sf.Frame(env.array([[1, 2], [3, 4]], 'int64'), index=(100, 101), columns=go)
+            static = holder.columns
+        elif kind == 6:
+            holder = sf.Series(env.array([1, 2], 'int64'), index=(10, 20)).relabel(go)
+            static = holder.index
+        elif kind == 7:
+            holder = sf.Frame(env.array([[1, 2], [3, 4]], 'int64'), index=(100, 101), columns=(10, 20)).relabel(columns=go)
+            static = holder.columns
+        elif kind == 8:
+            holder = sf.Series(env.array([1, 2], 'int64'), index=(10, 20)).reindex(go)
+            static = holder.index
+        else:
+            holder = sf.Frame.from_concat((fgo, sf.Frame(env.array([[5], [6]], 'int64'), index=(100, 101), columns=(30,))), axis=1)
+            static = holder.columns
+            exp_labels = [10, 20, 30]
         before = probe(static)
         hsnap = snap(env, holder)
         held = a in (10, 20)
@@ -303,14 +319,16 @@ def body_static_from_go(env, a, kind):
             except Exception:  # noqa: BLE001
                 grew.append(False)
         after = probe(static)
-        exp_probe = [[10, 20], 2, held, ([10, 20].index(a) if held else 'KeyError'), [10, 20], [0, 1]]
+        labs = [10, 20, 30] if kind == 9 else [10, 20]
+        held = a in labs
+        exp_probe = [labs, len(labs), held, (labs.index(a) if held else 'KeyError'), labs, list(range(len(labs)))]
         return [before, after, snap(env, holder), all_readonly(env, holder)], [exp_probe, exp_probe, hsnap, True]
     return rt.untraced(run)
 
 
-_add(Cond('static_from_grow_only_then_growth', [('a', 'int'), ('kind', 'int')], body_static_from_go, ranges={'a': (9, 21), 'kind': (0, 4)},
+_add(Cond('static_from_grow_only_then_growth', [('a', 'int'), ('kind', 'int')], body_static_from_go, ranges={'a': (9, 21), 'kind': (0, 9)},
         functions=['Index.__init__', '_IndexGOMixin.append'],
-        bounds='IndexGO [10, 20] / FrameGO 2x2 over it; static image taken by Index(go) / FrameGO.to_frame / Frame(fgo) / Series(index=go) / row selection (symbolic choice); then the source grows by a label symbolic in 9..21',
+        bounds='IndexGO [10, 20] / FrameGO 2x2 over it; static image taken by Index(go) / FrameGO.to_frame / Frame(fgo) / Series(index=go) / row selection / Frame(columns=go) / Series.relabel(go) / Frame.relabel(columns=go) / Series.reindex(go) / Frame.from_concat with the FrameGO (symbolic choice); then the source grows by a label symbolic in 9..21',
         route='static Index / Frame / Series made from a grow-only source: labels, membership, loc_to_iloc, positions and cells are the same before and after the source grows', timeout=240))
 
 
@@ -361,3 +379,61 @@ _add(Cond('positions_allocator_step', [('s0', 'int'), ('n1', 'int'), ('n2', 'int
         functions=['PositionsAllocator.get'],
         bounds='allocator capacity symbolic in 1..3 (the real initial capacity is 1024: the re-allocation branch is the same code), two requests of symbolic sizes 0..5, caller write at a symbolic position 0..2 through each view',
         route='PositionsAllocator.get (Index.positions): views are read-only and hold 0..n-1 before and after a re-allocation', timeout=240))
+
+
+
+def body_static_hierarchy_from_go(env, a, kind):
+    """Static HIERARCHICAL indices assembled from grow-only parts."""
+    sf = env.sf
+    from vf import rt
+    a, kind = _conc(a, 9, 21), _conc(kind, 0, 4)
+
+    def run():
+        go = sf.IndexGO([10, 20])
+        fgo = sf.FrameGO(env.array([[1, 2], [3, 4]], 'int64'), index=(100, 101), columns=go)
+        fst = sf.Frame(env.array([[5, 6], [7, 8]], 'int64'), index=(100, 101), columns=(10, 20))
+        if kind == 0:
+            holder = sf.IndexHierarchy.from_index_items((('x', go), ('y', sf.Index((10, 20)))))
+            static = holder
+        elif kind == 1:
+            holder = sf.Frame.from_concat_items((('x', fgo), ('y', fst)), axis=1)
+            static = holder.columns
+        elif kind == 2:
+            holder = sf.IndexHierarchy.from_product(('x', 'y'), go)
+            static = holder
+        elif kind == 3:
+            hgo = sf.IndexHierarchyGO.from_product(('x', 'y'), (10, 20))
+            holder = sf.IndexHierarchy(hgo)
+            static = holder
+            go = None
+        else:
+            hgo = sf.IndexHierarchyGO.from_product(('x', 'y'), (10, 20))
+            holder = sf.Series(env.array([1, 2, 3, 4], 'int64'), index=hgo)
+            static = holder.index
+            go = None
+        tuples = [['x', 10], ['x', 20], ['y', 10], ['y', 20]]
+
+        def probe(ix):
+            try:
+                pos = env.obs(ix.loc_to_iloc(('x', a)))
+            except KeyError:
+                pos = 'KeyError'
+            return [env.obs([list(t) for t in ix]), len(ix), bool(('x', a) in ix), bool(('y', a) in ix), pos, env.obs(ix.values.tolist()), list(ix.shape)]
+        before = probe(static)
+        hsnap = snap(env, holder) if not isinstance(holder, sf.IndexHierarchy) else None
+        for grow in ((lambda: go.append(a)) if go is not None else (lambda: hgo.append(('y', a))), lambda: fgo.__setitem__(a, 7)):
+            try:
+                grow()
+            except Exception:  # noqa: BLE001
+                pass
+        after = probe(static)
+        held = a in (10, 20)
+        exp_probe = [tuples, 4, held, held, ([10, 20].index(a) if held else 'KeyError'), tuples, [4, 2]]
+        return [before, after, (snap(env, holder) if hsnap is not None else None), all_readonly(env, holder)], [exp_probe, exp_probe, hsnap, True]
+    return rt.untraced(run)
+
+
+_add(Cond('static_hierarchy_from_grow_only_then_growth', [('a', 'int'), ('kind', 'int')], body_static_hierarchy_from_go, ranges={'a': (9, 21), 'kind': (0, 4)},
+        functions=['IndexHierarchy.from_index_items', 'IndexHierarchy.__init__'],
+        bounds='static IndexHierarchy assembled from grow-only parts: from_index_items with an IndexGO / Frame.from_concat_items(axis=1) with a FrameGO / from_product over an IndexGO / IndexHierarchy(IndexHierarchyGO) / Series(index=IndexHierarchyGO) (symbolic choice); then the grow-only source gains a label symbolic in 9..21',
+        route='static hierarchical index made from grow-only parts: tuples, len, membership, loc_to_iloc, values and shape are the same before and after the source grows', timeout=300))
